@@ -298,6 +298,27 @@ def checkCptAllowed (r : Rule) (q : Request) : Bool :=
   if q.tyBit == FROM_DOCUMENT then has r.mask FROM_DOCUMENT || r.isException
   else has r.mask q.tyBit
 
+/-- the `domain=` part of `check_options`: hashes of the initiator and its parent domains against the
+    sorted hash lists (with the union pre-filter) -/
+def domainGate (r : Rule) (q : Request) : Bool :=
+  let incOk := match r.domains with
+    | none => true
+    | some inc => match q.srcHashes with
+      | none => false
+      | some src =>
+        let unionOk := match r.domainsUnion with
+          | some u => !src.all (fun h => h &&& u != h)
+          | none => true
+        unionOk && !src.all (fun h => !binLookup inc h)
+  let excOk := match r.notDomains with
+    | none => true
+    | some exc => match q.srcHashes with
+      | none => true
+      | some src => match r.notDomainsUnion with
+        | some u => !src.any (fun h => (h &&& u == h) && binLookup exc h)
+        | none => !src.any (fun h => binLookup exc h)
+  incOk && excOk
+
 /-- `check_options` -/
 def checkOptions (r : Rule) (q : Request) : Bool :=
   if r.isBadfilter then false
@@ -307,24 +328,7 @@ def checkOptions (r : Rule) (q : Request) : Bool :=
       || (!q.isHttp && !q.isHttps && (r.forHttp != r.forHttps))
       || (!r.firstParty && !q.thirdParty)
       || (!r.thirdParty && q.thirdParty) then false
-  else
-    let incOk := match r.domains with
-      | none => true
-      | some inc => match q.srcHashes with
-        | none => false
-        | some src =>
-          let unionOk := match r.domainsUnion with
-            | some u => !src.all (fun h => h &&& u != h)
-            | none => true
-          unionOk && !src.all (fun h => !binLookup inc h)
-    let excOk := match r.notDomains with
-      | none => true
-      | some exc => match q.srcHashes with
-        | none => true
-        | some src => match r.notDomainsUnion with
-          | some u => !src.any (fun h => (h &&& u == h) && binLookup exc h)
-          | none => !src.any (fun h => binLookup exc h)
-    incOk && excOk
+  else domainGate r q
 
 /-- `NetworkMatchable::matches` -/
 def Rule.matches (r : Rule) (q : Request) : Bool := checkOptions r q && checkPattern r q
